@@ -131,6 +131,9 @@ Qed.
 Lemma merge_dicts_go : forall l r, merge_dicts l r = merge_go l r.
 Proof. intros l r; unfold merge_dicts; rewrite merge_json_dicts; reflexivity. Qed.
 
+Lemma merge_json_dicts_rec : forall r l, merge_json (JDict l) (JDict r) = JDict (merge_dicts l r).
+Proof. intros r l. rewrite merge_dicts_go. exact (merge_json_dicts r l). Qed.
+
 (* non-dict values REPLACE, never merge *)
 Lemma merge_json_replace : forall l r, is_jdict r = false \/ is_jdict l = false -> merge_json l r = r.
 Proof.
@@ -726,4 +729,251 @@ Proof.
   specialize (Hp tr Hn). rewrite forallb_forall in Hp. apply Hp; exact Hin.
 Qed.
 
+(* ---- the offer of get_next_tasks carries that context ---- *)
+
+Ltac step H :=
+  unfold bind at 1 in H;
+  lazymatch type of H with
+  | (let (_, _) := ?m ?c in _) = _ =>
+      let a := fresh "a" in destruct (m c) as [? [a|?]] eqn:?; [|discriminate H]
+  end.
+
+(* the first statement of get_task / next_task_for: the inbound context of the staged entry *)
+Definition inbound_ctx_M (s : stg) (c : cstate) : M dict :=
+  match get_staged_task (c_ws c) (s_id s) (s_route s) with
+  | Some s' => get_task_context (s_in s')
+  | None => match ws_task_entry (c_ws c) (s_id s) (s_route s) with
+            | Some r => get_task_context (r_in r)
+            | None => match nth_error (contexts (c_ws c)) 0 with
+                      | Some d => ret d
+                      | None => raise exn_index
+                      end
+            end
+  end.
+
+Theorem next_task_for_ctx : forall s c c' o, next_task_for ev s c = (c', Val (Some o)) ->
+  exists c0 ctx0, inbound_ctx_M s c c = (c0, Val ctx0)
+                  /\ o_ctx o = task_eval_ctx (s_id s) (s_route s) None ctx0 (c_ws c).
+Proof.
+  intros s c c' o H. unfold next_task_for in H.
+  unfold bind at 1, get at 1 in H. cbv beta iota in H.
+  step H. exists c0, a. split; [exact Heqp|].
+  fold (task_eval_ctx (s_id s) (s_route s) None a (c_ws c)) in H.
+  set (tc := task_eval_ctx (s_id s) (s_route s) None a (c_ws c)) in *.
+  step H. step H. step H.
+  destruct (ts_with a0) as [its|].
+  - step H. step H. step H. step H.
+    match type of H with (let '(_, _) := ?p in _) _ = _ => destruct p as [acts conc'] end.
+    unfold ret in H. destruct acts; [destruct (Datatypes.length a1)|]; inversion H; reflexivity.
+  - unfold ret in H. destruct a1; inversion H; reflexivity.
+Qed.
+
+Lemma inbound_ctx_initial : forall s c s' d0,
+  get_staged_task (c_ws c) (s_id s) (s_route s) = Some s' -> s_in s' = [0] ->
+  nth_error (contexts (c_ws c)) 0 = Some d0 -> NoDup (keys d0) ->
+  inbound_ctx_M s c c = (c, Val d0).
+Proof.
+  intros s c s' d0 Hs Hin H0 Hd. unfold inbound_ctx_M. rewrite Hs, Hin.
+  unfold get_task_context, bind, getws. rewrite (task_context_of_initial _ _ H0 Hd). reflexivity.
+Qed.
+
+(* contexts[0] -> the context offered with (and evaluated for) a task that reads [0] *)
+Theorem first_task_sees_initial : forall s c c' o s' d0 n,
+  next_task_for ev s c = (c', Val (Some o)) ->
+  get_staged_task (c_ws c) (s_id s) (s_route s) = Some s' -> s_in s' = [0] ->
+  nth_error (contexts (c_ws c)) 0 = Some d0 -> NoDup (keys d0) ->
+  n <> "__current_task" -> n <> "__state" ->
+  dget n (o_ctx o) = dget n d0
+  /\ dhas "__current_task" (o_ctx o) = true /\ dhas "__state" (o_ctx o) = true.
+Proof.
+  intros s c c' o s' d0 n H Hs Hin H0 Hd Hn1 Hn2.
+  destruct (next_task_for_ctx s c c' o H) as [c0 [ctx0 [Hc Ho]]].
+  rewrite (inbound_ctx_initial s c s' d0 Hs Hin H0 Hd) in Hc. inversion Hc; subst c0 ctx0.
+  rewrite Ho. split; [apply task_eval_ctx_user; assumption|].
+  destruct (task_eval_ctx_internals (s_id s) (s_route s) None d0 (c_ws c)) as [H1 H2].
+  split; [|exact H2]. unfold dhas, ahas.
+  fold (dget "__current_task" (task_eval_ctx (s_id s) (s_route s) None d0 (c_ws c))).
+  rewrite H1. reflexivity.
+Qed.
+
+(* ---- output ---- *)
+
+Lemma ensure_ws_inited' : forall c, c_init c = true -> ensure_ws ev c = (c, Val tt).
+Proof. intros c H; unfold ensure_ws, bind, get; simpl; rewrite H; reflexivity. Qed.
+
+Section LiteralOut.
+Hypothesis Hev : ev_literal_ok ev.
+
+Theorem render_output_literal : forall c tctx, c_init c = true ->
+  status_in (wstatus (c_ws c)) COMPLETED_STATUSES = true -> c_output c = None ->
+  get_workflow_terminal_context c = (c, Val tctx) ->
+  all_literal (wf_output (c_spec c)) = true ->
+  render_workflow_output ev c =
+  (match set_all (wf_output (c_spec c)) [] with [] => c | o => set_output c (Some o) end, Val tt).
+Proof.
+  intros c tctx Hi Hst Hout Ht Hl. unfold render_workflow_output.
+  rewrite (bind_val _ _ _ _ _ _ _ (ensure_ws_inited' c Hi)).
+  unfold bind at 1, get at 1. cbv beta iota. rewrite Hst, Hout. change (true && true) with true. cbv beta iota.
+  rewrite (bind_val _ _ _ _ _ _ _ Ht).
+  rewrite (bind_val _ _ _ _ _ _ _ (render_vars_literal Hev _ _ _ _ _ Hl)). cbv beta iota.
+  destruct (set_all (wf_output (c_spec c)) []); reflexivity.
+Qed.
+End LiteralOut.
+
 End DataPath.
+
+(* ---- composition: runtime input -> contexts[0] -> task context -> offered / evaluated context ---- *)
+Theorem input_reaches_first_task : forall ev, ev_literal_ok ev -> forall c n v,
+  c_init c = false -> contexts (c_ws c) = [] ->
+  all_literal (input_values (wf_input (c_spec c)) (c_inputs c)) = true ->
+  all_literal (wf_vars (c_spec c)) = true ->
+  status_in (wstatus (c_ws c)) ABENDED_STATUSES = false ->
+  NoDup (map fst (wf_input (c_spec c))) -> NoDup (keys (c_parent c)) ->
+  In (n, v) (input_values (wf_input (c_spec c)) (c_inputs c)) ->
+  ~ In n (map fst (wf_vars (c_spec c))) ->
+  (is_jdict v = false \/ forall pv, dget n (c_parent c) = Some pv -> is_jdict pv = false) ->
+  n <> "__current_task" -> n <> "__state" ->
+  exists c1, ensure_ws ev c = (c1, Val tt)
+    /\ nth_error (contexts (c_ws c1)) 0 = Some (init_ctx_of c)
+    /\ dget n (init_ctx_of c) = Some v
+    /\ get_task_context_from (contexts (c_ws c1)) [0] [] = Val (init_ctx_of c)
+    /\ forall s s' c2 o, get_staged_task (c_ws c1) (s_id s) (s_route s) = Some s' -> s_in s' = [0] ->
+         next_task_for ev s c1 = (c2, Val (Some o)) -> dget n (o_ctx o) = Some v.
+Proof.
+  intros ev Hev c n v Hi Hc Hin Hvars Hst Hnd Hp Hnv Hnot Hrep Hn1 Hn2.
+  destruct (ensure_ws_literal ev Hev c Hi Hin Hvars Hst) as [c1 [He Hctx]].
+  rewrite Hc in Hctx. simpl in Hctx.
+  assert (H0 : nth_error (contexts (c_ws c1)) 0 = Some (init_ctx_of c)) by (rewrite Hctx; reflexivity).
+  pose proof (init_ctx_holds_input c n v Hnd Hp Hnv Hnot Hrep) as Hv.
+  pose proof (NoDup_keys_init_ctx c Hp) as Hk.
+  exists c1. split; [exact He|]. split; [exact H0|]. split; [exact Hv|].
+  split; [apply task_context_of_initial; assumption|].
+  intros s s' c2 o Hs Hsin Hn.
+  destruct (first_task_sees_initial ev s c1 c2 o s' (init_ctx_of c) n Hn Hs Hsin H0 Hk Hn1 Hn2) as [Hd _].
+  rewrite Hd. exact Hv.
+Qed.
+
+(* ================================================================= examples (non-vacuity) *)
+
+Module C16Examples.
+
+(* ints beyond 2^64 / 2^128, strings that look like numbers, booleans, null, format directives,
+   JSON text; nested containers; a float extreme (opaque hex text) *)
+Definition zoo : json :=
+  JDict [("big", JInt 340282366920938463463374607431768211457);
+         ("neg", JInt (-18446744073709551617));
+         ("s1", JStr "1"); ("st", JStr "true"); ("sn", JStr "null"); ("fmt", JStr "%s");
+         ("js", JStr "{""a"": [1, 2]}");
+         ("f", JFloat "0x1.fffffffffffffp+1023");
+         ("nested", JList [JDict [("k", JList [JNull; JBool true; JStr "{0}"; JInt 18446744073709551616])];
+                           JList []; JDict []; JStr "%(a)s"]);
+         ("1", JInt 1)].
+
+(* a toy oracle: literals are returned, "<% ctx().NAME %>" looks NAME up, anything else fails *)
+Definition ev_toy (s : string) (ctx : dict) : evalres :=
+  if no_expr s then EvOk (JStr s)
+  else if String.prefix "<% ctx()." s then
+    match dget (substring 9 (String.length s - 12) s) ctx with
+    | Some v => EvOk v
+    | None => EvErr {| x_cls := "YaqlEvaluationException"; x_msg := "unresolved"; x_expr := true |}
+    end
+  else EvErr {| x_cls := "YaqlEvaluationException"; x_msg := "unsupported"; x_expr := true |}.
+
+Lemma ev_toy_ok : ev_literal_ok ev_toy.
+Proof. intros s ctx H. unfold ev_toy. rewrite H. reflexivity. Qed.
+
+Definition t1_spec : task_spec :=
+  {| ts_action := JStr "core.echo"; ts_input := JDict [("x", JStr "<% ctx().v %>"); ("lit", zoo)];
+     ts_with := None; ts_delay := JNull; ts_join := JNull;
+     ts_next := [{| tr_when := JNull; tr_publish := [("p", zoo); ("q", JStr "<% ctx().v %>")]; tr_do := ["t2"] |}] |}.
+
+Definition spec0 : wf_spec :=
+  {| wf_input := [("v", JNull); ("d", zoo)]; wf_vars := [("lv", zoo)]; wf_output := [("o", zoo)];
+     wf_tasks := [("t1", t1_spec)] |}.
+
+Definition graph0 : graph :=
+  {| g_nodes := [{| n_id := "t1"; n_barrier := JNull; n_splits := None; n_retry := JNull |}]; g_edges := [] |}.
+
+Definition c0 : cstate :=
+  {| c_spec := spec0; c_graph := graph0; c_inputs := [("v", zoo)]; c_parent := [];
+     c_init := false; c_ws := empty_ws; c_errors := []; c_log := []; c_output := None |}.
+
+Example ex_zoo_literal : literal zoo = true /\ no_expr "<% ctx().v %>" = false /\ no_expr "{{ ctx().v }}" = false.
+Proof. vm_compute. repeat split. Qed.
+
+(* (a) dicts merge key by key, recursively; anything else replaces; key order *)
+Example ex_merge :
+  merge_dicts [("w", JDict [("a", JInt 1); ("n", JDict [("x", JInt 1)])]); ("e", JDict [("k", JInt 1)]); ("s", zoo)]
+              [("w", JDict [("b", JInt 2); ("n", JDict [("y", JInt 2)])]); ("e", JDict []); ("new", zoo); ("s", JStr "1")]
+  = [("w", JDict [("a", JInt 1); ("n", JDict [("x", JInt 1); ("y", JInt 2)]); ("b", JInt 2)]);
+     ("e", JDict [("k", JInt 1)]); ("s", JStr "1"); ("new", zoo)].
+Proof. vm_compute. reflexivity. Qed.
+
+Example ex_merge_replace : merge_json zoo (JStr "1") = JStr "1" /\ merge_json (JInt 1) zoo = zoo
+                           /\ merge_json (JList [zoo]) (JList []) = JList [].
+Proof. vm_compute. repeat split. Qed.
+
+(* (b) the literal passes through evaluate; and a reference to it returns it (oracle at work) *)
+Example ex_evaluate_identity : evaluate ev_toy zoo [("v", JInt 0)] c0 = (c0, Val zoo).
+Proof. vm_compute. reflexivity. Qed.
+
+Example ex_evaluate_reference :
+  evaluate ev_toy (JDict [("x", JStr "<% ctx().v %>"); ("l", JList [JStr "<% ctx().v %>"; JStr "%s"])]) [("v", zoo)] c0
+  = (c0, Val (JDict [("x", zoo); ("l", JList [zoo; JStr "%s"])])).
+Proof. vm_compute. reflexivity. Qed.
+
+(* (d) runtime input -> contexts[0] (with the default of "d" and the var "lv") *)
+Example ex_input_stored :
+  contexts (c_ws (fst (ensure_ws ev_toy c0))) = [[("v", zoo); ("d", zoo); ("lv", zoo)]]
+  /\ init_ctx_of c0 = [("v", zoo); ("d", zoo); ("lv", zoo)].
+Proof. vm_compute. split; reflexivity. Qed.
+
+Example ex_task_context :
+  get_task_context_from [[("v", zoo); ("w", JDict [("a", JInt 1)])]; [("p", zoo); ("w", JDict [("b", JInt 2)]); ("v", JStr "null")]] [0; 1] []
+  = Val [("v", JStr "null"); ("w", JDict [("a", JInt 1); ("b", JInt 2)]); ("p", zoo)].
+Proof. vm_compute. reflexivity. Qed.
+
+(* the whole first leg on the model: boot, poll; the offered action input and context hold zoo *)
+Example ex_first_offer :
+  match (request_workflow_status ev_toy S_RUNNING ;;; get_next_tasks ev_toy) c0 with
+  | (_, Val [o]) => (dget "v" (o_ctx o), map a_input (o_actions o),
+                     dhas "__current_task" (o_ctx o), dhas "__state" (o_ctx o))
+  | _ => (None, [], false, false)
+  end = (Some zoo, [JDict [("x", zoo); ("lit", zoo)]], true, true).
+Proof. vm_compute. reflexivity. Qed.
+
+(* publish: the delta holds exactly the published names, values unchanged; a dunder name enters
+   only because the publish names it *)
+Example ex_publish :
+  render_vars ev_toy [("p", zoo); ("q", JStr "<% ctx().v %>"); ("__mine", JStr "%s"); ("bad", JStr "<% ctx().nope %>")]
+              [("v", zoo); ("__state", JDict [("status", JStr "running")])] [] [] c0
+  = (c0, Val ([("p", zoo); ("q", zoo); ("__mine", JStr "%s")],
+              [{| x_cls := "YaqlEvaluationException"; x_msg := "unresolved"; x_expr := true |}])).
+Proof. vm_compute. reflexivity. Qed.
+
+Example ex_finalize :
+  finalize_context ev_toy t1_spec {| e_src := "t1"; e_dst := "t2"; e_key := 0; e_ref := 0; e_criteria := [] |}
+                   [("v", zoo); ("__current_task", JNull); ("__state", JNull)] c0
+  = (c0, Val ([("p", zoo); ("q", zoo)], [])).
+Proof. vm_compute. reflexivity. Qed.
+
+(* output *)
+Definition c_done : cstate :=
+  {| c_spec := spec0; c_graph := graph0; c_inputs := [("v", zoo)]; c_parent := [];
+     c_init := true;
+     c_ws := {| contexts := [[("v", zoo)]]; routes := [[]];
+                sequence := [{| r_id := "t1"; r_route := 0; r_in := [0]; r_out := None; r_prev := [];
+                                r_next := []; r_status := Some S_SUCCEEDED; r_term := true; r_retry := None |}];
+                staged := []; wstatus := S_SUCCEEDED; tasks := [(("t1", 0), 0)]; reruns := [] |};
+     c_errors := []; c_log := []; c_output := None |}.
+
+Example ex_output : c_output (fst (render_workflow_output ev_toy c_done)) = Some [("o", zoo)].
+Proof. vm_compute. reflexivity. Qed.
+
+(* (e) the evaluation context of a task: internals present, user names untouched *)
+Example ex_task_eval_ctx :
+  keys (task_eval_ctx "t1" 0 None [("v", zoo); ("w", JInt 1)] empty_ws) = ["v"; "w"; "__current_task"; "__state"]
+  /\ dget "v" (task_eval_ctx "t1" 0 None [("v", zoo); ("w", JInt 1)] empty_ws) = Some zoo.
+Proof. vm_compute. split; reflexivity. Qed.
+
+End C16Examples.
